@@ -640,7 +640,7 @@ class C05(Prop):
                     steps.append(["query", k, rng.choice(["sum_name", "swapaxes_name"]), ri()])
                 steps.append(["rename", k, ri(), rng.choice(["name_setter", "set_axis_name", "dims_setter", "dims_dict", "axis_set_name",
                                                              "axes_setitem", "set_axis_copy", "dims_swap", "dims_swap_dict", "dims_dup",
-                                                             "dims_dup_dict"])])
+                                                             "dims_dup_dict", "dims_dup_partial"])])
             elif t == "reduce":
                 steps.append(["reduce", k, ri(), rng.choice(["sum", "mean", "min", "max", "median", "prod", "std"])])
             elif t == "cum":
@@ -1081,7 +1081,7 @@ class C05(Prop):
                 a.dims = tuple(new if e == d else a.dims[e] for e in range(nd))
             elif via == "dims_dict":
                 a.dims = {a.dims[d]: new}
-            elif via in ("dims_swap", "dims_swap_dict", "dims_dup", "dims_dup_dict"):
+            elif via in ("dims_swap", "dims_swap_dict", "dims_dup", "dims_dup_dict", "dims_dup_partial"):
                 # the new names reuse current ones: a rotation of the names is a plain renaming (each axis gets the name
                 # given for it), a repeated name must be refused (the array would be ill-formed: checked after the history)
                 if nd < 2 or any(frozen(x) for x in a.axes):
@@ -1095,7 +1095,11 @@ class C05(Prop):
                 want = cur[1:] + cur[:1] if "swap" in via else tuple(cur[(d + 1) % nd] if e == d else cur[e] for e in range(nd))
                 raised = None
                 try:
-                    a.dims = dict(zip(cur, want)) if via.endswith("dict") else want
+                    if via == "dims_dup_partial":
+                        # a PARTIAL mapping onto the name another dimension already holds (that dimension is not renamed)
+                        a.dims = {cur[d]: cur[(d + 1) % nd]}
+                    else:
+                        a.dims = dict(zip(cur, want)) if via.endswith("dict") else want
                 except Exception as e:  # noqa
                     raised = e
                 expect = (cur,) if raised is not None else (want,) if "swap" in via else ()
